@@ -54,7 +54,7 @@ class Prop(Check):
         "Proc.C13_phase",
     ]
     DRIVER = "Drivers/Proc.lean"
-    QUICK_CASES = 390
+    QUICK_CASES = 440
     THOROUGH_CASES = 12000
     RULE = ("generated grammars with 2..5 common rules, 0..3 abstract rules (nested, with match-rule alternatives, "
             "wrapped alternatives), recursive containment, references with postponement schedules, user classes, "
@@ -119,8 +119,87 @@ class Prop(Check):
         rank = {w: i for i, w in enumerate(waits)}
         for ref in self.case_refs(case):
             ref["wait"] = rank[ref["wait"]]
-        if waits and 0 not in waits:
-            pass  # ranks start at 0 by construction
+        self.gen_config(case, r.fork("config"))
+        self.gen_history(case, r.fork("history"))
+
+    # "For any grammar": the grammar may be spread over files that import each other.
+    # "For any … model": the load may be one of many — other metamodels built from the same grammar
+    # with the same user classes, earlier (also failing) loads, replaced registrations, a model
+    # repository that keeps the models of earlier loads.
+    def gen_config(self, case, r):
+        schema = case["schema"]
+        # one group of mutually recursive rules per file: are there model objects of rules that the
+        # main grammar file reaches through a chain of imports only?  Then mostly use that split.
+        fine = pg.split_levels(schema, r.fork("fine"), 12)
+        if self.chained_objects(case, fine) and r.chance(0.75):
+            case["gsplit"] = {"levels": fine}
+        elif r.chance(0.25):
+            lev = pg.split_levels(schema, r, r.weighted([(2, 2), (3, 3), (4, 1)]))
+            if max(lev.values()) > 0:
+                case["gsplit"] = {"levels": lev}
+        if case.get("from_file") and r.chance(0.35):
+            case["grepo"] = True
+
+    @staticmethod
+    def chained_objects(case, lev):
+        """model objects whose rule is defined in a grammar file that g0 does not import itself."""
+        uses = pg.rule_uses(case["schema"])
+        direct = {0} | {lev[y] for x, ys in uses.items() if lev[x] == 0 for y in ys}
+        return [x["uid"] for f in case["files"] for x in pg.walk_objs(f["root"]) if lev[x["rule"]] not in direct]
+
+    def gen_history(self, case, r):
+        if not r.chance(0.55):
+            return
+        schema = case["schema"]
+        rules = [x["name"] for x in schema["rules"]] + [a["name"] for a in schema["abstracts"]]
+        nfiles = len(case["files"])
+        labels = r.shuffle(list(range(1 + r.weighted([(0, 2), (1, 5), (2, 2)]))))
+        timed, built = [], {}
+        for j, lab in enumerate(labels):
+            built[lab] = 100 * j
+            timed.append((100 * j, len(timed), ["build", lab, True if lab == 0 else r.chance(0.85)]))
+            if lab != 0 and r.chance(0.85):
+                timed.append((100 * j, len(timed), ["reg", lab, [x for x in rules if r.chance(0.6)]]))
+        end = 100 * len(labels)
+        tfinal = r.randint(built[0] + 1, end)
+        if r.chance(0.3):  # a registration that is replaced by the final one
+            timed.append((r.randint(built[0] + 1, tfinal), len(timed), ["reg", 0, [x for x in rules if r.chance(0.5)]]))
+        timed.append((tfinal, len(timed), ["reg", 0, None]))
+        for _ in range(r.weighted([(0, 2), (1, 4), (2, 3)])):
+            lab = r.choice(labels)
+            kind = r.weighted([("ok", 6), ("syntax", 1), ("ref", 1), ("proc", 1)])
+            if case.get("grepo") and lab == 0 and kind in ("ref", "proc"):
+                kind = "ok"  # (whether these fail depends on the model; what the repository keeps must be decidable)
+            main = r.below(nfiles) if nfiles > 1 and r.chance(0.5) else 0
+            timed.append((r.randint(built[lab] + 1, end + 20), len(timed), ["load", lab, kind, main]))
+        case["history"] = {"steps": [st for _t, _n, st in sorted(timed, key=lambda x: x[:2])]}
+
+    DEFAULT_STEPS = [["build", 0, True], ["reg", 0, None]]
+
+    @staticmethod
+    def steps(case):
+        return (case.get("history") or {}).get("steps") or Prop.DEFAULT_STEPS
+
+    @staticmethod
+    def closure(case, k):
+        seen, todo = {k}, [k]
+        while todo:
+            for j in case["files"][todo.pop()]["imports"]:
+                if j not in seen:
+                    seen.add(j)
+                    todo.append(j)
+        return seen
+
+    @staticmethod
+    def new_files(case):
+        """files whose models are built by the observed load: all files the main file includes, except
+        those a model repository of the metamodel kept from an earlier successful load."""
+        kept = set()
+        if case.get("grepo") and case.get("from_file"):
+            for st in Prop.steps(case):
+                if st[0] == "load" and st[1] == 0 and st[2] == "ok":
+                    kept |= Prop.closure(case, st[3])
+        return sorted(Prop.closure(case, 0) - kept)
 
     @staticmethod
     def case_refs(case):
@@ -140,9 +219,29 @@ class Prop(Check):
         run = Run(case, case["reg"], script, match_reg=case.get("match_reg", []))
         obs = {}
         try:
-            run.build()
-            run.providers()
-            run.processors()
+            run.phase = "history"
+            obs["hist"] = []
+            for st in self.steps(case):
+                if st[0] == "build":
+                    mm = run.new_metamodel(st[1], shared=st[2])
+                    if st[1] == 0:
+                        run.mm = mm
+                    run.providers(mm)
+                elif st[0] == "reg":
+                    if st[1] == 0 and st[2] is None:
+                        run.processors()
+                    else:
+                        run.processors(mm=run.mms[st[1]], reg=st[2], alien="replaced" if st[1] == 0 else f"mm{st[1]}")
+                elif st[0] == "load":
+                    run.fail_refs, run.fail_proc = st[2] == "ref", st[2] == "proc"
+                    try:
+                        run.load(mm=run.mms[st[1]], main=st[3], broken=st[2] == "syntax")
+                        obs["hist"].append("ok")
+                    except Exception as e:  # noqa: BLE001
+                        obs["hist"].append(type(e).__name__ + ": " + str(e)[:200])
+                    finally:
+                        run.fail_refs = run.fail_proc = False
+            run.begin_observation()
             try:
                 model = run.load()
                 obs["outcome"] = "ok"
@@ -168,7 +267,7 @@ class Prop(Check):
             obs["attrs"] = list(run.attrs)
             obs["kinds"] = []
             for name in run.classes:
-                t = run.mm[name]._tx_type
+                t = run.class_of(name)._tx_type
                 obs["kinds"].append({"common": 0, "abstract": 1, "match": 2}[t])
             obs["tags"] = dict(run.tags)
         finally:
@@ -188,8 +287,10 @@ class Prop(Check):
         for name in classes[len(kinds):]:
             kinds.append(1 if name in absn else 0)
         script = []
+        new = self.new_files(case)
+        uid_file = self.uid_files(case)
         for rule, uid, beh in case.get("script", []):
-            if rule not in classes:
+            if rule not in classes or uid_file.get(uid) not in new:
                 continue
             if beh[0] == "v":
                 ret = ["v", VALUE_TAG[vkey(VALUES[beh[1]])]]
@@ -200,7 +301,7 @@ class Prop(Check):
                     continue
                 ret = ["f", attrs.index(beh[1])]
             script.append([classes.index(rule), uid, ret])
-        order = self.model_order(obs)
+        order = self.model_order(obs, new)
         nres = sum(1 for e in obs["events"] if e[0] == "resolve")
         return {
             "op": "objproc",
@@ -213,8 +314,9 @@ class Prop(Check):
         }
 
     @staticmethod
-    def model_order(obs):
-        """files in the order textX walks them: by first processor call, then the rest."""
+    def model_order(obs, new):
+        """the files whose models the observed load builds (`new`), in the order textX walks them:
+        by first processor call, then the rest."""
         order = []
         uid_file = {}
         for k, tree in obs["pre"].items():
@@ -229,8 +331,9 @@ class Prop(Check):
         for e in obs["events"]:
             if e[0] == "proc" and uid_file.get(e[2]) is not None and uid_file[e[2]] not in order:
                 order.append(uid_file[e[2]])
+        order = [k for k in order if k in new]
         for k in sorted(int(x) for x in obs["pre"]):
-            if k not in order:
+            if k not in order and k in new:
                 order.append(k)
         return order
 
@@ -238,7 +341,7 @@ class Prop(Check):
         if "err" in out:
             return f"Lean model rejects the request: {out}"
         classes = obs["classes"] + [r for r in case["reg"] if r not in obs["classes"]]
-        order = self.model_order(obs)
+        order = self.model_order(obs, self.new_files(case))
         # processor calls with snapshots, model by model in walk order
         want = []
         for log in out["logs"]:
@@ -267,7 +370,7 @@ class Prop(Check):
         if got_per != per_model:
             return f"initialisation order per model: implementation {got_per}, model {per_model}"
         # phase shape: resolve* init* proc* (match-processor events are construction-time)
-        kinds_impl = [e[0] for e in obs["events"] if e[0] != "match"]
+        kinds_impl = [e[0] for e in obs["events"] if e[0] not in ("match", "alien")]
         kinds_model = [{"r": "resolve", "i": "init", "p": "proc"}[e[0]] for e in out["events"]]
         if kinds_impl != kinds_model:
             return f"event phases: implementation {self.compress(kinds_impl)}, model {self.compress(kinds_model)}"
@@ -298,8 +401,9 @@ class Prop(Check):
         schema = case["schema"]
         rm = pg.rule_map(schema)
         reg = set(case["reg"])
-        script = {(r, u): b for r, u, b in case.get("script", [])}
         objs = case_objs(case)
+        new = set(self.new_files(case))  # objects of models kept from earlier loads are not processed again
+        script = {(r, u): b for r, u, b in case.get("script", []) if objs[u][0] in new}
         matchn = {m["name"] for m in schema["matches"]} | set(pg.BASES)
         memo = {}
 
@@ -379,6 +483,10 @@ class Prop(Check):
         rend = pg.render(case, case.get("layout", 0))
         objs = case_objs(case)
         reg = list(case["reg"])
+        for st, res in zip([st for st in self.steps(case) if st[0] == "load"], obs.get("hist", [])):
+            if st[2] == "ok" and res != "ok":
+                return f"an earlier load of the history ({st}) failed: {res}"
+        new = set(self.new_files(case))
         commons = {r["name"] for r in schema["rules"]}
         abstracts = {a["name"] for a in schema["abstracts"]}
         # the model must be the generated object tree (else nothing below can be judged)
@@ -396,15 +504,20 @@ class Prop(Check):
             return (f"the loaded model does not consist of the generated objects: missing "
                     f"{sorted(set(objs) - seen)[:5]}, unexpected {sorted(seen - set(objs))[:5]}")
         procs = [(i, e) for i, e in enumerate(obs["events"]) if e[0] == "proc"]
+        alien = [e[1:] for e in obs["events"] if e[0] == "alien"]
+        if alien:
+            return (f"processors that are not registered with the metamodel in use ran during the load "
+                    f"(registration, rule, object): {alien[:5]}")
         # (1) once per object of a common rule / (2) once per object stored under an abstract rule
         for rule in reg:
             calls = sorted(e[2] for _i, e in procs if e[1] == rule)
             if rule in commons:
-                want = sorted(u for u, (_k, o) in objs.items() if o["rule"] == rule)
+                want = sorted(u for u, (k, o) in objs.items() if o["rule"] == rule and k in new)
                 if calls != want:
                     return f"processor of common rule {rule} ran on objects {calls}, the model objects of that rule are {want}"
             elif rule in abstracts:
-                want = sorted(u for u, o in rend.objs.items() if o["decl"] == rule and o["parent"] is not None)
+                want = sorted(u for u, o in rend.objs.items()
+                              if o["decl"] == rule and o["parent"] is not None and o["file"] in new)
                 if calls != want:
                     return (f"processor of abstract rule {rule} ran on objects {calls}, the objects stored in "
                             f"attributes typed {rule} are {want}")
@@ -420,7 +533,7 @@ class Prop(Check):
                 if own in reg and not (first.get((own, uid), 10 ** 9) < i):
                     return f"processor of abstract rule {rule} ran on object {uid} before the processor of its own rule {own}"
         # (3) only after all references are resolved and user classes are initialised
-        nrefs = len(rend.refs)
+        nrefs = len([x for x in rend.refs if x[0] in new])
         for i, e in procs:
             if not e[3] or e[4] != nrefs:
                 return (f"processor {e[1]} called on object {e[2]} while references were unresolved "
@@ -486,7 +599,10 @@ class Prop(Check):
 
     def extra_evidence(self, cases, obs, outs):
         d = {"files>1": 0, "abstract_with_match_alt": 0, "replacements": 0, "postponed_refs": 0, "user_classes": 0,
-             "proc_calls": 0, "objects": 0}
+             "proc_calls": 0, "objects": 0, "grammar_files>1": 0, "transitively_imported_objects": 0,
+             "model_repository": 0, "models_kept_from_earlier_loads": 0, "history": 0, "shared_user_class_metamodels": 0,
+             "observed_metamodel_not_newest": 0, "earlier_loads_ok": 0, "earlier_loads_failed": 0,
+             "replaced_registration": 0}
         for c, o in zip(cases, obs):
             if not isinstance(o, dict) or "events" not in o:
                 continue
@@ -498,12 +614,46 @@ class Prop(Check):
             d["user_classes"] += bool(c["schema"]["user"])
             d["proc_calls"] += sum(1 for e in o["events"] if e[0] == "proc")
             d["objects"] += len(o.get("slots", {}))
+            if c.get("gsplit"):
+                d["grammar_files>1"] += 1
+                d["transitively_imported_objects"] += bool(self.chained_objects(c, c["gsplit"]["levels"]))
+            d["model_repository"] += bool(c.get("grepo"))
+            d["models_kept_from_earlier_loads"] += len(self.new_files(c)) < len(c["files"])
+            steps = self.steps(c)
+            if c.get("history"):
+                d["history"] += 1
+                builds = [st for st in steps if st[0] == "build"]
+                shared = [st for st in builds if st[2]]
+                d["shared_user_class_metamodels"] += bool(c["schema"]["user"]) and len(shared) > 1
+                d["observed_metamodel_not_newest"] += bool(c["schema"]["user"]) and shared[-1][1] != 0
+                d["replaced_registration"] += any(st[0] == "reg" and st[1] == 0 and st[2] is not None for st in steps)
+                for st, res in zip([st for st in steps if st[0] == "load"], o.get("hist", [])):
+                    d["earlier_loads_ok" if res == "ok" else "earlier_loads_failed"] += 1
         return {"distribution": d}
 
     # ------------------------------------------------------------------ shrinking / search
     def shrink(self, case):
         import copy
 
+        # a shorter history (a step that later steps need is kept), one grammar file, no repository
+        steps = (case.get("history") or {}).get("steps")
+        if steps:
+            c = copy.deepcopy(case)
+            del c["history"]
+            yield c
+            for i, st in enumerate(steps):
+                if st[0] == "build" and (st[1] == 0 or any(x[1] == st[1] for x in steps[i + 1:])):
+                    continue
+                if st[0] == "reg" and st[1] == 0 and st[2] is None:
+                    continue
+                c = copy.deepcopy(case)
+                del c["history"]["steps"][i]
+                yield c
+        for key in ("gsplit", "grepo"):
+            if case.get(key):
+                c = copy.deepcopy(case)
+                del c[key]
+                yield c
         # fewer scripted returns, fewer registrations
         for i in range(len(case.get("script", []))):
             c = copy.deepcopy(case)
